@@ -4,17 +4,15 @@
    parameter.  [deval f a] is the table entry at the state-index assignment a; the result's state-name
    dict is phi.state_names.update(phi1.state_names), so names follow indices (see C04_product_pointwise).
 
-   NOT proved in the time available (modelled, extracted and checked against pgmpy on every run, see
-   harness/c04.py; statements intended):
-     C04_sum_pointwise / C04_divide_pointwise : for wf operands with (divide: scope g <= scope f)
-        deval (sum f g) a = deval f a + deval g a ; devalx (divide f g) a = qdiv (deval f a) (deval g a)
-        (needs the invariant of the swapaxes alignment loop: pointwise value preserved, prefix aligned);
-     C04_reduce : deval (reduce f ev) a = deval f (upds a ev') with ev' the name->number translation (fall back
-        to numbers when any name is unknown);
-     C04_normalize, C04_eq_iff, C04_hash_respects_eq, marginalize under axis permutation. *)
+   NOT proved (modelled, extracted and checked against pgmpy on every run, see harness/c04.py):
+     the full C04_eq_iff (the modelled == is true iff same variable set, same state sets and every named assignment
+        within atol + rtol*|b|): only C04_eq_iff_partial below (operands needing no axis/state re-alignment) is proved;
+        C04_hash_respects_eq; maximize for tables with negative entries (C04_maximize is stated in
+        the max-product semiring, whose laws need non-negative tables). *)
 From Coq Require Import List Arith Lia PeanoNat Bool ZArith QArith Qcanon.
 From PV Require Import Base.Semiring Base.Ravel Base.FinSum Base.RefFactor
-  C04.Tensor C04.TensorFacts C04.Model C04.Spec C04.ProofsProd C04.ProofsMarg C04.ProofsAlg C04.ProofsStore C04.ProofsNamed.
+  C04.Tensor C04.TensorFacts C04.Model C04.Spec C04.ProofsProd C04.ProofsMarg C04.ProofsAlg C04.ProofsStore C04.ProofsNamed
+  C04.ProofsReduce C04.ProofsAlign C04.ProofsDivSum C04.ProofsAlg2 C04.ProofsNorm C04.ProofsEq.
 Import ListNotations.
 Local Close Scope Qc_scope.
 Local Close Scope Q_scope.
@@ -139,3 +137,162 @@ Theorem C04_out_of_place_pure (s : store) (lf : nat) s' lf' (ms : list mutation)
   observe (fold_left (fun st m => store_mutate st lf' m) ms s') lf = observe s lf.
 Proof. exact (copy_pure s lf s' lf' ms). Qed.
 Print Assumptions C04_out_of_place_pure.
+
+(* ---------------------------------------------------------------------------------------------------------
+   reduce: by state NAME with the documented all-or-nothing fall back to state numbers (negative numbers wrap).
+   [red_idx card f ev v] is the state index selected for v: the LAST pair for v in reduce_numbers f ev (names
+   translated to positions when every name is known, the given values otherwise), read as a Python index. *)
+Theorem C04_reduce {A} (d : A) (card : var -> nat) (f : dfactor A) ev h :
+  dwf card f -> reduce d f ev = Ok h ->
+  dwf card h /\ dvars h = vminus (dvars f) (map fst ev) /\
+  ddel_list (map fst ev) (dstates f) = Some (dstates h) /\
+  (forall v, In v (map fst ev) -> exists i, red_idx card f ev v = Some i /\ i < card v) /\
+  forall a, valid card a -> deval d h a = deval d f (red_asg card f ev a).
+Proof. exact (reduce_pointwise d card f ev h). Qed.
+Print Assumptions C04_reduce.
+
+(* every given state is a known name: the selected index is the position of the (last) given name *)
+Theorem C04_reduce_by_name {A} (card : var -> nat) (f : dfactor A) ev v nm :
+  dwf card f -> (forall p, In p ev -> name_to_no f (fst p) (snd p) <> None) ->
+  ev_last v ev = Some nm -> In v (dvars f) -> length (states_of f v) = card v ->
+  red_idx card f ev v = Some (posz nm (states_of f v)) /\ In nm (states_of f v).
+Proof. exact (red_idx_by_name card f ev v nm). Qed.
+Print Assumptions C04_reduce_by_name.
+
+(* some given state is not a name of its variable: ALL given states are used as state numbers *)
+Theorem C04_reduce_numbers_fallback {A} (f : dfactor A) ev :
+  (exists p, In p ev /\ name_to_no f (fst p) (snd p) = None) -> reduce_numbers f ev = ev.
+Proof. exact (reduce_numbers_fallback f ev). Qed.
+Print Assumptions C04_reduce_numbers_fallback.
+
+Theorem C04_refines_reference_reduce (R : csr) (card : var -> nat) (f : dfactor R) ev h a :
+  dwf card f -> reduce zero f ev = Ok h -> valid card a ->
+  feval R card (to_ref h) a = feval R card (fred R card (red_ev card f ev) (to_ref f)) a.
+Proof. exact (reduce_refines R card f ev h a). Qed.
+Print Assumptions C04_refines_reference_reduce.
+
+(* the swapaxes alignment loop of sum / divide / ==: afterwards the operand's variable list IS the target's, its
+   shape is the target-ordered shape, and the entry at every assignment is unchanged *)
+Theorem C04_align_loop {B} (db : B) (c1 : var -> nat) (target vars1 : list var) (vals1 : tensor B) :
+  NoDup target -> (forall v, In v vars1 <-> In v target) -> length vars1 = length target ->
+  tshape vals1 = map c1 vars1 ->
+  let r := align_loop db target (length target) vars1 vals1 in
+  fst r = target /\ tshape (snd r) = map c1 target /\
+  forall a : asg, (forall v, In v target -> a v < c1 v) ->
+    tget db (snd r) (map a target) = tget db vals1 (map a vars1).
+Proof. exact (align_loop_spec db c1 target vars1 vals1). Qed.
+Print Assumptions C04_align_loop.
+
+(* divide: scope/cardinalities/state names of the dividend; value = IEEE quotient with nan (0/0) replaced by 0 and
+   x/0 = +inf / -inf as explicit tags (qdiv) *)
+Theorem C04_divide_pointwise (card : var -> nat) (dx : xq) (f g : dfactor Qc) ex h :
+  dwf card f -> dwf card g -> divide f g ex = Ok h ->
+  dwf card h /\ dvars h = dvars f /\ dstates h = dstates f /\
+  (forall v, In v (dvars g) -> In v (dvars f)) /\
+  forall a, valid card a -> deval dx h a = qdiv (deval 0%Qc f a) (deval 0%Qc g a).
+Proof. exact (divide_pointwise card dx f g ex h). Qed.
+Print Assumptions C04_divide_pointwise.
+
+Example C04_divide_conventions :
+  qdiv 0%Qc 0%Qc = XFin 0%Qc /\ qdiv 1%Qc 0%Qc = XPInf /\ qdiv (-(1))%Qc 0%Qc = XNInf /\ qdiv 1%Qc (1 + 1)%Qc = XFin (1 / (1 + 1))%Qc.
+Proof. repeat split; vm_compute; reflexivity. Qed.
+
+Theorem C04_sum_pointwise (card : var -> nat) (R : csr) (f g : dfactor R) ex1 ex2 h :
+  dwf card f -> dwf card g -> sum R f g ex1 ex2 = Ok h ->
+  dwf card h /\ dvars h = dvars f ++ ex1 /\
+  (forall v, In v (dvars h) <-> In v (dvars f) \/ In v (dvars g)) /\
+  dstates h = match ex1 with [] => dstates f | _ => dupdate (dstates f) (dstates g) end /\
+  forall a, valid card a -> deval zero h a = add (deval zero f a) (deval zero g a).
+Proof. exact (sum_pointwise card R f g ex1 ex2 h). Qed.
+Print Assumptions C04_sum_pointwise.
+
+Example C04_sum_divide_nonvacuous :
+  (exists h, sum Qc_sum_csr
+      {| dvars := [0; 1]; dcard := [2; 3]; dstates := []; dvals := tbuild [2; 3] (fun _ => 1%Qc) |}
+      {| dvars := [2; 1]; dcard := [2; 3]; dstates := []; dvals := tbuild [2; 3] (fun _ => 1%Qc) |} [2] [0] = Ok h) /\
+  (exists h, divide
+      {| dvars := [0; 1; 2]; dcard := [2; 3; 2]; dstates := []; dvals := tbuild [2; 3; 2] (fun _ => 1%Qc) |}
+      {| dvars := [2; 1]; dcard := [2; 3]; dstates := []; dvals := tbuild [2; 3] (fun _ => 0%Qc) |} [0] = Ok h).
+Proof. split; eexists; vm_compute; reflexivity. Qed.
+
+(* normalize: every entry divided (IEEE) by the sum over ALL assignments of the factor's variables *)
+Theorem C04_normalize (card : var -> nat) (dx : xq) (f : dfactor Qc) a0 :
+  dwf card f ->
+  dwf card (normalize f) /\ dvars (normalize f) = dvars f /\ dstates (normalize f) = dstates f /\
+  forall a, valid card a -> deval dx (normalize f) a = qdiv_ieee (deval 0%Qc f a) (total_of card f a0).
+Proof. exact (normalize_pointwise card dx f a0). Qed.
+Print Assumptions C04_normalize.
+Theorem C04_normalize_nonzero (card : var -> nat) (dx : xq) (f : dfactor Qc) a0 a :
+  dwf card f -> total_of card f a0 <> 0%Qc -> valid card a ->
+  deval dx (normalize f) a = XFin (deval 0%Qc f a / total_of card f a0)%Qc.
+Proof. exact (normalize_pointwise_nonzero card dx f a0 a). Qed.
+Print Assumptions C04_normalize_nonzero.
+
+(* axis-order irrelevance for the other operations *)
+Theorem C04_axis_order_irrelevant_marginalize (R : csr) (card : var -> nat) (f f' : dfactor R) X h h' :
+  dwf card f -> dwf card f' -> same_meaning R card f f' ->
+  marginalize R f X = Ok h -> marginalize R f' X = Ok h' -> same_meaning R card h h'.
+Proof. exact (marginalize_axis_order_irrelevant R card f f' X h h'). Qed.
+Print Assumptions C04_axis_order_irrelevant_marginalize.
+Theorem C04_axis_order_irrelevant_maximize (R : csr) (card : var -> nat) (f f' : dfactor R) X h h' :
+  dwf card f -> dwf card f' -> same_meaning R card f f' ->
+  maximize R f X = Ok h -> maximize R f' X = Ok h' -> same_meaning R card h h'.
+Proof. exact (maximize_axis_order_irrelevant R card f f' X h h'). Qed.
+Print Assumptions C04_axis_order_irrelevant_maximize.
+Theorem C04_axis_order_irrelevant_sum (R : csr) (card : var -> nat) (f g f' g' : dfactor R) e1 e2 e1' e2' h h' :
+  dwf card f -> dwf card g -> dwf card f' -> dwf card g' ->
+  same_meaning R card f f' -> same_meaning R card g g' ->
+  sum R f g e1 e2 = Ok h -> sum R f' g' e1' e2' = Ok h' -> same_meaning R card h h'.
+Proof. exact (sum_axis_order_irrelevant R card f g f' g' e1 e2 e1' e2' h h'). Qed.
+Print Assumptions C04_axis_order_irrelevant_sum.
+Theorem C04_axis_order_irrelevant_reduce (R : csr) (card : var -> nat) (f f' : dfactor R) ev h h' :
+  dwf card f -> dwf card f' -> same_meaning R card f f' ->
+  (forall v nm, name_to_no f v nm = name_to_no f' v nm) ->
+  reduce zero f ev = Ok h -> reduce zero f' ev = Ok h' -> same_meaning R card h h'.
+Proof. exact (reduce_axis_order_irrelevant R card f f' ev h h'). Qed.
+Print Assumptions C04_axis_order_irrelevant_reduce.
+Theorem C04_axis_order_irrelevant_divide (card : var -> nat) (dx : xq) (f g f' g' : dfactor Qc) e e' h h' :
+  dwf card f -> dwf card g -> dwf card f' -> dwf card g' ->
+  same_meaning Qc_sum_csr card f f' -> same_meaning Qc_sum_csr card g g' ->
+  divide f g e = Ok h -> divide f' g' e' = Ok h' ->
+  (forall v, In v (dvars h) <-> In v (dvars h')) /\ forall a, valid card a -> deval dx h a = deval dx h' a.
+Proof. exact (divide_axis_order_irrelevant card dx f g f' g' e e' h h'). Qed.
+Print Assumptions C04_axis_order_irrelevant_divide.
+
+(* summing out X then Y = summing out Y then X, on the literal model *)
+Theorem C04_sum_out_order_irrelevant (R : csr) (card : var -> nat) (f : dfactor R) X Y h1 h2 k1 k2 :
+  dwf card f -> (forall v, In v X -> ~ In v Y) ->
+  marginalize R f X = Ok h1 -> marginalize R h1 Y = Ok h2 ->
+  marginalize R f Y = Ok k1 -> marginalize R k1 X = Ok k2 -> same_meaning R card h2 k2.
+Proof. exact (sum_out_order_irrelevant R card f X Y h1 h2 k1 k2). Qed.
+Print Assumptions C04_sum_out_order_irrelevant.
+
+(* scalar operands: phi * c, phi + c *)
+Theorem C04_product_scalar (R : csr) (card : var -> nat) (f : dfactor R) c a : dwf card f -> valid card a ->
+  deval zero (product_scalar R f c) a = mul (deval zero f a) c.
+Proof. exact (product_scalar_pointwise R card f c a). Qed.
+Print Assumptions C04_product_scalar.
+Theorem C04_sum_scalar (R : csr) (card : var -> nat) (f : dfactor R) c a : dwf card f -> valid card a ->
+  deval zero (sum_scalar R f c) a = add (deval zero f a) c.
+Proof. exact (sum_scalar_pointwise R card f c a). Qed.
+Print Assumptions C04_sum_scalar.
+
+(* == : PARTIAL.  Full statement (not proved): for well formed self, other,
+     factor_eqb atol rtol self other = Ok true  <->  same variable set /\ same state SET per variable /\
+     for every named assignment nu: |neval other nu - neval self nu| <= atol + rtol * |neval self nu|.
+   Proved: the case where no re-alignment is needed (same variable order, same state lists): == is true exactly when
+   every entry of other is within atol + rtol*|entry of self| of the entry of self (exact arithmetic, tolerances as
+   parameters; closeb is characterised by C04_closeb_spec).  Missing: the alignment loop with cardinality swaps
+   (value part: C04_align_loop) and the per-axis state re-ordering by integer-list indexing. *)
+Theorem C04_eq_iff_partial (card : var -> nat) (atol rtol : Qc) (self other : dfactor Qc) :
+  dwf card self -> dwf card other -> dvars self = dvars other ->
+  (forall v, In v (dvars self) -> exists l, dlookup v (dstates self) = Some l /\ dlookup v (dstates other) = Some l) ->
+  (factor_eqb atol rtol self other = Ok true <->
+   forall idx, in_range (dcard self) idx ->
+     closeb atol rtol (tget 0%Qc (dvals other) idx) (tget 0%Qc (dvals self) idx) = true).
+Proof. exact (eq_iff_aligned card atol rtol self other). Qed.
+Print Assumptions C04_eq_iff_partial.
+Theorem C04_closeb_spec (atol rtol a b : Qc) :
+  closeb atol rtol a b = true <-> (Qcabs (a - b) <= atol + rtol * Qcabs b)%Qc.
+Proof. exact (closeb_spec atol rtol a b). Qed.
+Print Assumptions C04_closeb_spec.
